@@ -14,6 +14,73 @@ use std::time::{Duration, SystemTime};
 
 pub type BoxError = Box<dyn std::error::Error + Send + Sync>;
 
+/// Chunk types an entity can hand out.  `Bytes` is contiguous; `SegData` is a `Buf` made of
+/// several segments, so `chunk().len() < remaining()` -- `Entity::Data` may be any `Buf`.
+pub trait ChunkData: bytes::Buf + From<Vec<u8>> + From<&'static [u8]> + Send + Sync + 'static {
+    fn from_content(v: Vec<u8>) -> Self;
+}
+
+impl ChunkData for Bytes {
+    fn from_content(v: Vec<u8>) -> Self {
+        Bytes::from(v)
+    }
+}
+
+pub struct SegData(std::collections::VecDeque<Bytes>);
+
+impl bytes::Buf for SegData {
+    fn remaining(&self) -> usize {
+        self.0.iter().map(|b| b.len()).sum()
+    }
+    fn chunk(&self) -> &[u8] {
+        self.0.iter().find(|b| !b.is_empty()).map(|b| &b[..]).unwrap_or(&[])
+    }
+    fn advance(&mut self, mut cnt: usize) {
+        while cnt > 0 {
+            let Some(front) = self.0.front_mut() else { panic!("advance past end") };
+            if front.len() <= cnt {
+                cnt -= front.len();
+                self.0.pop_front();
+            } else {
+                bytes::Buf::advance(front, cnt);
+                cnt = 0;
+            }
+        }
+    }
+}
+
+impl From<Vec<u8>> for SegData {
+    fn from(v: Vec<u8>) -> Self {
+        SegData::from_content(v)
+    }
+}
+
+impl From<&'static [u8]> for SegData {
+    fn from(v: &'static [u8]) -> Self {
+        SegData::from_content(v.to_vec())
+    }
+}
+
+impl ChunkData for SegData {
+    /// Splits the content into up to three segments (1 byte, half of the rest, the rest).
+    fn from_content(v: Vec<u8>) -> Self {
+        let b = Bytes::from(v);
+        let mut q = std::collections::VecDeque::new();
+        if b.len() >= 3 {
+            let mid = 1 + (b.len() - 1) / 2;
+            q.push_back(b.slice(0..1));
+            q.push_back(b.slice(1..mid));
+            q.push_back(b.slice(mid..));
+        } else if b.len() == 2 {
+            q.push_back(b.slice(0..1));
+            q.push_back(b.slice(1..2));
+        } else {
+            q.push_back(b);
+        }
+        SegData(q)
+    }
+}
+
 pub fn content_byte(i: u64) -> u8 {
     (i % 251) as u8
 }
@@ -76,7 +143,8 @@ impl EnvLog {
     }
 }
 
-pub struct ScriptedEntity {
+pub struct ScriptedEntity<D: ChunkData = Bytes> {
+    pub _d: std::marker::PhantomData<fn() -> D>,
     pub len: u64,
     pub etag: Option<HeaderValue>,
     pub mtime: Option<SystemTime>,
@@ -86,8 +154,8 @@ pub struct ScriptedEntity {
     pub log: Arc<Mutex<EnvLog>>,
 }
 
-impl ScriptedEntity {
-    pub fn from_case(ent: &Value, scripts: Option<&Value>, dscript: Option<&Value>) -> ScriptedEntity {
+impl<D: ChunkData> ScriptedEntity<D> {
+    pub fn from_case(ent: &Value, scripts: Option<&Value>, dscript: Option<&Value>) -> ScriptedEntity<D> {
         let len = crate::common::from_limbs(&ent["len"]).expect("ent.len limbs");
         let etag = match ent["etag"]["k"].as_str() {
             Some("tag") => Some(
@@ -120,6 +188,7 @@ impl ScriptedEntity {
             })
             .unwrap_or_default();
         ScriptedEntity {
+            _d: std::marker::PhantomData,
             len,
             etag,
             mtime,
@@ -134,7 +203,8 @@ impl ScriptedEntity {
     }
 }
 
-struct ScriptedStream {
+struct ScriptedStream<D: ChunkData> {
+    _d: std::marker::PhantomData<fn() -> D>,
     call: u64,
     start: u64,
     pos: u64,
@@ -150,7 +220,7 @@ struct ScriptedStream {
 /// (returns Pending without waking) instead and the harness stops polling.
 const MAX_HONEST: u64 = 1 << 24;
 
-impl ScriptedStream {
+impl<D: ChunkData> ScriptedStream<D> {
     /// The next item (kind, n, taken from the item list?, is it the one extra byte?) -- pure.
     fn decide(&self) -> (char, u64, bool, bool) {
         if self.next_item < self.script.items.len() {
@@ -201,8 +271,8 @@ impl ScriptedStream {
     }
 }
 
-impl Stream for ScriptedStream {
-    type Item = Result<Bytes, BoxError>;
+impl<D: ChunkData> Stream for ScriptedStream<D> {
+    type Item = Result<D, BoxError>;
 
     fn poll_next(mut self: Pin<&mut Self>, cx: &mut Context<'_>) -> Poll<Option<Self::Item>> {
         let this = &mut *self;
@@ -230,7 +300,7 @@ impl Stream for ScriptedStream {
                 this.pos = this.pos.wrapping_add(n);
                 ev(&mut l, "yield", n);
                 this.publish_next(&mut l);
-                Poll::Ready(Some(Ok(Bytes::from(d))))
+                Poll::Ready(Some(Ok(D::from_content(d))))
             }
             'p' => {
                 ev(&mut l, "pending", 0);
@@ -259,9 +329,9 @@ impl Stream for ScriptedStream {
     }
 }
 
-impl http_serve::Entity for ScriptedEntity {
+impl<D: ChunkData> http_serve::Entity for ScriptedEntity<D> {
     type Error = BoxError;
-    type Data = Bytes;
+    type Data = D;
 
     fn len(&self) -> u64 {
         self.len
@@ -270,7 +340,7 @@ impl http_serve::Entity for ScriptedEntity {
     fn get_range(
         &self,
         range: Range<u64>,
-    ) -> Pin<Box<dyn Stream<Item = Result<Bytes, BoxError>> + Send + Sync>> {
+    ) -> Pin<Box<dyn Stream<Item = Result<D, BoxError>> + Send + Sync>> {
         let mut l = self.log.lock().unwrap();
         l.calls += 1;
         let call = l.calls;
@@ -280,7 +350,8 @@ impl http_serve::Entity for ScriptedEntity {
             .get((call - 1) as usize)
             .cloned()
             .unwrap_or_else(|| self.dscript.clone());
-        let st = ScriptedStream {
+        let st = ScriptedStream::<D> {
+            _d: std::marker::PhantomData,
             call,
             start: range.start,
             pos: range.start,
